@@ -103,6 +103,7 @@ def new_agg():
         'virtual_ms': 0,
         'unmodelled': Counter(),
         'violations': [],  # (seed, scenario, violation)
+        'sig_counts': {},
         'harness_errors': [],
         'samples': [],
         'first_seed': None,
@@ -131,7 +132,8 @@ def merge_run(agg, seed, scn, out):
     agg['unmodelled'].update(out.get('unmodelled', {}))
     agg['log_digests'][seed] = out.get('digest')
     for v in out.get('violations', []):
-        if len(agg['violations']) < 200:
+        agg['sig_counts'][v['sig']] = agg['sig_counts'].get(v['sig'], 0) + 1
+        if agg['sig_counts'][v['sig']] <= 5:  # keep a few cases per signature (smallest is shrunk)
             agg['violations'].append((seed, scn, v))
     if len(agg['samples']) < 2 and out.get('judged', 0) > 0 and not out.get('violations'):
         agg['samples'].append({'seed': seed, 'scenario': scn, 'summary': out.get('summary')})
@@ -156,6 +158,8 @@ def merge_agg(total, part):
     total['seqs'].update(part['seqs'])
     total['virtual_ms'] += part['virtual_ms']
     total['violations'].extend(part['violations'])
+    for k, v in part['sig_counts'].items():
+        total['sig_counts'][k] = total['sig_counts'].get(k, 0) + v
     total['harness_errors'].extend(part['harness_errors'])
     for s in part['samples']:
         if len(total['samples']) < 3:
@@ -348,6 +352,7 @@ def run_check(pid, tier, base_seed=None, budget_s=None, workers=None, runs=None)
 
     total = new_agg()
     harness_fail = None
+    known_sigs = {e['signature'] for e in load_known(pid)}
     ctx = multiprocessing.get_context('fork')
     next_start = 0
     with ProcessPoolExecutor(max_workers=workers, mp_context=ctx) as pool:
@@ -372,7 +377,7 @@ def run_check(pid, tier, base_seed=None, budget_s=None, workers=None, runs=None)
                 part = fut.result(timeout=getattr(mod, 'CHUNK_TIMEOUT_S', 300) + 30)
                 merge_agg(total, part)
                 over_budget = (time.time() - t0) > budget_s
-                many_viol = len(total['violations']) >= 60
+                many_viol = sum(c for sg, c in total['sig_counts'].items() if sg not in known_sigs) >= 60
                 if not over_budget and not many_viol:
                     submit()
                 elif runs is not None and tier == 'quick' and not many_viol:
@@ -405,8 +410,9 @@ def run_check(pid, tier, base_seed=None, budget_s=None, workers=None, runs=None)
         seed, scn, v = cases[0]
         k = match_known(known, sig)
         if k is not None:
-            known_seen.append({'signature': sig, 'what': k['what'], 'count': len(cases), 'seed': seed})
-            print(f'KNOWN-FINDING: property={pid} {k["what"]} [signature={sig}] ({len(cases)} runs, e.g. seed {seed})')
+            cnt = total['sig_counts'].get(sig, len(cases))
+            known_seen.append({'signature': sig, 'what': k['what'], 'count': cnt, 'seed': seed})
+            print(f'KNOWN-FINDING: property={pid} {k["what"]} [signature={sig}] ({cnt} occurrences, e.g. seed {seed})')
             continue
         if len(reported) >= getattr(mod, 'MAX_SHRINK_SIGS', 6):
             reported.append({'signature': sig, 'seed': seed, 'count': len(cases), 'replay': None})
@@ -425,10 +431,10 @@ def run_check(pid, tier, base_seed=None, budget_s=None, workers=None, runs=None)
             harness_fail = f'replay {path} did not reproduce in a fresh interpreter:\n{txt[-2000:]}'
             continue
         reported.append(
-            {'signature': sig, 'seed': seed, 'count': len(cases), 'replay': path, 'shrink_execs': execs, 'detail': vv.get('detail')}
+            {'signature': sig, 'seed': seed, 'count': total['sig_counts'].get(sig, len(cases)), 'replay': path, 'shrink_execs': execs, 'detail': vv.get('detail')}
         )
         print(f'VIOLATION property={pid} replay={path}')
-        print(f'  signature: {sig}   runs hitting it: {len(cases)}   shrink executions: {execs}')
+        print(f'  signature: {sig}   occurrences: {total["sig_counts"].get(sig, len(cases))}   shrink executions: {execs}')
         print(f'  detail: {json.dumps(vv.get("detail"), default=str)[:1200]}')
         exit_code = 1
 
